@@ -278,6 +278,37 @@ def g_sort_asc(rng):
         yield [w_ints(l)], call_impl(srt, l, i % 3 != 2), c_ints, {'l': l}
 
 
+def g_unique(rng):
+    """NpU.unique = np.unique(l) of a 1-D integer index array (also what sorted(set(l)) is)"""
+    def uq(l):
+        r = np.unique(iarr(l))
+        return _consistent([int(x) for x in r], sorted(set(int(x) for x in l)))
+    fixed = [[], [0], [0, 0], [0, 0, 0], [3, 1, 2, 1, 3], [0, 3, 5, 7], [7, 5, 3, 0], [2, 2, 1, 1, 0, 0], [5, 0, 5, 0, 5]]
+    for i in range(N_RANDOM + len(fixed)):
+        if i < len(fixed):
+            l = fixed[i]
+        else:
+            l = [rng.choice([0, 0, 1, 2, rng.randint(0, 9), rng.randint(0, 1000)]) for _ in range(sizes(rng, i - len(fixed), (0, 1, 2, 2, 3, 3)))]
+            if i % 4 == 0:
+                l = sorted(l, reverse=rng.random() < 0.3)          # already sorted (the switched-peak case), with / without repeats
+            if i % 7 == 0:
+                l = sorted(set(l))                                  # strictly ascending: np.unique must be the identity
+        yield [w_ints(l)], call_impl(uq, l), c_ints, {'l': l}
+
+
+def g_dedup_adj(rng):
+    """NpU.dedupAdj = l[np.concatenate(([True], l[1:] != l[:-1]))] (the mask step of np.unique), any order of l"""
+    def dd(l):
+        a = iarr(l)
+        if len(a) == 0:
+            return a
+        return a[np.concatenate(([True], a[1:] != a[:-1]))]
+    fixed = [[], [4], [0, 0], [0, 0, 1, 1, 1, 0, 2], [1, 2, 3], [3, 3, 3, 3], [1, 0, 1, 0]]
+    for i in range(N_RANDOM + len(fixed)):
+        l = fixed[i] if i < len(fixed) else [rng.choice([0, 0, 1, 1, 2, rng.randint(0, 5)]) for _ in range(sizes(rng, i - len(fixed), (1, 2, 2, 3, 3, 4)))]
+        yield [w_ints(l)], call_impl(dd, l), c_ints, {'l': l}
+
+
 # ---- Python `for` loops -------------------------------------------------------------------------
 
 BODIES = ('visit', 'horner', 'rec')
@@ -737,6 +768,8 @@ PRIMITIVES_P = [
     ('np.p.sign_int', g_sign_int),                                         # NpP.sign (Int)
     ('np.p.insert_asc', g_insert_asc),                                     # NpP.insertAsc
     ('np.p.sort_asc', g_sort_asc),                                         # NpP.sortAsc
+    ('np.u.unique', g_unique),                                             # NpU.unique (Prelude/NpU.lean, Handlers/PreludeU.lean)
+    ('np.u.dedup_adj', g_dedup_adj),                                       # NpU.dedupAdj
     ('np.p.for_enum', _g_for_enum(False)),                                 # NpP.forEnumE
     ('np.p.for_enum_from', _g_for_enum(True)),                             # NpP.forEnumFrom
     ('np.p.for_range', _g_for_range(False)),                               # NpP.forRangeE
